@@ -600,6 +600,32 @@ pub fn gen(args: &[String]) {
                 } else { entry };
                 emit(&mut out, &mut rng, text, entry, &mut id);
             }
+            "lossless" => {
+                // documents, no limits: mutated corpus and fragment soup
+                let text = if !corp.is_empty() && rng.chance(3, 4) {
+                    let src = rng.pick(&corp).clone();
+                    let src = if src.chars().count() > 500 {
+                        let cs: Vec<char> = src.chars().collect();
+                        let a = rng.below(cs.len() - 300);
+                        cs[a..a + rng.range(40, 300)].iter().collect()
+                    } else {
+                        src
+                    };
+                    mutate(&mut rng, &src)
+                } else {
+                    let n = rng.range(0, 30);
+                    let mut s = String::new();
+                    for _ in 0..n {
+                        s.push_str(*rng.pick(FRAGS));
+                        if rng.chance(1, 2) {
+                            s.push(' ');
+                        }
+                    }
+                    s
+                };
+                id += 1;
+                out.line(&json!({"id": id, "entry": "Document", "text": text, "tok": -1, "rec": -1, "trace": trace}));
+            }
             "standalone" => {
                 let ty = rng.chance(1, 2);
                 let alpha: &[&str] = if ty { &["Int", "[", "]", "!", " ", ",", "#c\n", "a", "{", "}", "%", "é", "\u{feff}", "1", "\n"] }
